@@ -3,7 +3,7 @@ PROP = "C04"
 
 
 def run(tier):
-    ck = simprops.run_prop(PROP, tier, n_quick=6000, n_thorough=80000, e2e=(300, 4000), all_schedules=(800, 10000))
+    ck = simprops.run_prop(PROP, tier, n_quick=6000, n_thorough=80000, e2e=(300, 4000), all_schedules=(800, 10000), late_targets=(500, 6000))
     return ck.finish()
 
 
